@@ -26,7 +26,8 @@ NestedField == "inner.name"
 FieldNames == DOMAIN FieldKind \cup {NestedField}
 
 \* layout: where the services live - in the API package itself ("root") or, every one of them, in a proto sub-package of it
-\* ("sub": pkg.v1.services.Things; the Google Ads layout).  The rules do not mention it: the outcome must not depend on it.
+\* ("sub": pkg.v1.services.Things; the Google Ads layout), or the service of the settings in the API package and ANOTHER service in
+\* a sub-package ("mixed": pkg.v1.Things + pkg.v1.admin.Admin).  The rules do not mention it: the outcome must not depend on it.
 VARIABLES settings, stage, outcome, layout
 vars == <<settings, stage, outcome, layout>>
 
@@ -39,7 +40,7 @@ Init == /\ settings \in {<<>>} \cup {<<e>> : e \in Entries}
                       \cup {<<e1, e2>> : e1 \in {e \in Entries : e.fields \subseteq {"request_id"}}, e2 \in {e \in Entries : Cardinality(e.fields) <= 1}}
                       \cup {<<e1, e2, e3>> : e1 \in Plain, e2 \in Plain, e3 \in Plain}
         /\ stage = "loaded" /\ outcome = "pending"
-        /\ layout \in IF Len(settings) = 2 THEN {"root"} ELSE {"root", "sub"}
+        /\ layout \in IF Len(settings) = 2 THEN {"root"} ELSE {"root", "sub", "mixed"}
 
 FieldOk(sel, f) == f # NestedField /\ KindOf(sel, f) = "ok"
 EntryOk(e) == MethodKind[e.selector] = "unary" /\ \A f \in e.fields : FieldOk(e.selector, f)
